@@ -84,7 +84,9 @@ def _get_code_from_file(*args, hy_src_check=lambda x: x.endswith(".hy")):
 
     if hy.compat.PY3_15:
         fname, module = args
-    elif hy.compat.PY3_12:
+    elif hy.compat.PY3_12_6:
+        # `runpy._get_code_from_file` lost its `run_name` parameter in
+        # Python 3.12.6, not 3.12.0.
         fname, = args
     else:
         run_name, fname = args
